@@ -32,7 +32,7 @@ func init() {
 			{Name: "go-sev-guest validate", Kind: "real"},
 			{Name: "scheduler, network getter", Kind: "stub", Note: "cooperative scheduler: one runnable goroutine, seeded picks"},
 		},
-		Budget: core.StdBudget(3000, 100*time.Second, 600000, 25*time.Minute),
+		Budget: core.StdBudget(3000, 100*time.Second, 600000, 9*time.Minute),
 		Body:   runC09,
 	})
 }
